@@ -302,13 +302,16 @@ def fmtRound (B : Nat) (m : Mode) (f : FmtSpec) (prec : Option Nat) (r : FRepr) 
          | none => [])
   head ++ body ++ rep pads.2 f.fill
 
-/-- `Repr::fmt_round_scientific::<R>(upper, use_hexadecimal = false, marker)` (`LowerExp`/`UpperExp`);
-    when rounding carries into a new digit (`9.99 → 10.0`) the last (zero) digit is dropped -/
-def fmtSci (B : Nat) (m : Mode) (f : FmtSpec) (prec : Option Nat) (upper : Bool) (r : FRepr) : List Nat :=
+/-- `Repr::fmt_round_scientific::<R>(upper, use_hexadecimal, marker)`: `LowerExp`/`UpperExp` of every
+    base, `Binary`/`Octal`/`LowerHex`/`UpperHex` of the matching base, and — `useHex`, base 2 only —
+    the hexadecimal form `0xh.hhhp±e`; when rounding carries into a new digit (`9.99 → 10.0`) the
+    last (zero) digit is dropped -/
+def fmtSciG (B : Nat) (m : Mode) (f : FmtSpec) (prec : Option Nat) (upper useHex : Bool) (marker : Nat)
+    (r : FRepr) : List Nat :=
   let negative := r.signif < 0
   let se : Int × Int := match prec with
     | some p0 =>
-      let p : Int := (p0 : Int) + 1
+      let p : Int := if useHex then (p0 : Int) * 4 + 4 else (p0 : Int) + 1
       let diff : Int := p - (digitsI B r.signif : Int)
       if diff < 0 then
         let shift := (-diff).toNat
@@ -321,9 +324,10 @@ def fmtSci (B : Nat) (m : Mode) (f : FmtSpec) (prec : Option Nat) (upper : Bool)
     | none => (r.signif, r.exp)
   let signif := se.1
   let exp := se.2
-  let full := printSpecInt B upper signif
+  let full := printSpecInt (if useHex then 16 else B) upper signif
   let signifStr := if negative then full.drop 1 else full
-  let expAdjust : Int := exp + (signifStr.length : Int) - 1
+  let expAdjust : Int :=
+    if useHex then exp + ((signifStr.length : Int) - 1) * 4 else exp + (signifStr.length : Int) - 1
   let expStr : List Nat := printSpecInt 10 false expAdjust
   let p := prec.getD 0
   let pads : Nat × Nat := match f.width with
@@ -332,21 +336,85 @@ def fmtSci (B : Nat) (m : Mode) (f : FmtSpec) (prec : Option Nat) (upper : Bool)
       let hasPoint := if signifStr.length > 1 ∨ p > 0 then 1 else 0
       let hasSign := if negative || f.plus then 1 else 0
       let trailingZeros := if p > signifStr.length - 1 then p - (signifStr.length - 1) else 0
-      let width := signifStr.length + expStr.length + 1 + hasSign + hasPoint + trailingZeros
+      let width := signifStr.length + expStr.length + 1 + hasSign + hasPoint + (if useHex then 2 else 0) +
+        trailingZeros
       if width ≥ minWidth then (0, 0)
       else match f.align with
         | some .left => (0, minWidth - width)
         | some .right | none => (minWidth - width, 0)
         | some .center => let d := minWidth - width; (d / 2, d - d / 2)
   let sign : List Nat := if negative then [45] else if f.plus then [43] else []
-  let head := (if !f.zero then rep pads.1 f.fill else []) ++ sign ++ (if f.zero then rep pads.1 [48] else [])
+  let head := (if !f.zero then rep pads.1 f.fill else []) ++ sign ++ (if useHex then [48, 120] else []) ++
+    (if f.zero then rep pads.1 [48] else [])
   let int := signifStr.take 1
   let fract := signifStr.drop 1
-  let marker : Nat := if B = 10 then (if upper then 69 else 101) else 64
   let body := int ++ (if fract ≠ [] then [46] ++ fract else []) ++
     (if p > 0 then (if fract = [] then [46] else []) ++ rep (p - fract.length) [48] else []) ++
     [marker] ++ expStr
   head ++ body ++ rep pads.2 f.fill
+
+/-- `LowerExp` / `UpperExp`: marker `e` / `E` in base 10, `@` otherwise -/
+def fmtSci (B : Nat) (m : Mode) (f : FmtSpec) (prec : Option Nat) (upper : Bool) (r : FRepr) : List Nat :=
+  fmtSciG B m f prec upper false (if B = 10 then (if upper then 69 else 101) else 64) r
+
+/-- `Binary` (base 2, marker `b`), `Octal` (base 8, `o`), `LowerHex`/`UpperHex` (base 16: marker `h`;
+    base 2: hexadecimal form with marker `p`); `none` when the trait is not implemented for the base -/
+def fmtRadixTrait (B : Nat) (m : Mode) (f : FmtSpec) (prec : Option Nat) (k : String) (r : FRepr) :
+    Option (List Nat) :=
+  match k, B with
+  | "bin", 2 => some (fmtSciG 2 m f prec false false 98 r)
+  | "oct", 8 => some (fmtSciG 8 m f prec false false 111 r)
+  | "lhex", 16 => some (fmtSciG 16 m f prec false false 104 r)
+  | "uhex", 16 => some (fmtSciG 16 m f prec true false 104 r)
+  | "lhex", 2 => some (fmtSciG 2 m f prec false true 112 r)
+  | "uhex", 2 => some (fmtSciG 2 m f prec true true 112 r)
+  | _, _ => none
+
+-- ---------------------------------------------------------------- Debug
+
+def strBytes (s : String) : List Nat := s.toUTF8.toList.map (·.toNat)
+
+/-- `Debug` of `UBig`/`IBig` (`DoubleEnd`): all decimal digits when the magnitude fits in two words,
+    otherwise the `dpw` most and least significant digits around `..` (`dpw` = decimal digits per
+    word); `{:#?}` appends the digit and bit counts -/
+def debugInt (W : Nat) (alt plus : Bool) (z : Int) : List Nat :=
+  let n := z.natAbs
+  let sign : List Nat := if z < 0 then [45] else if plus then [43] else []
+  let ds := printSpec 10 false n
+  let dpw := (radixInfo W 10).dpw
+  let body := if n < 2 ^ (2 * W) then ds else ds.take dpw ++ [46, 46] ++ ds.drop (ds.length - dpw)
+  let nd := if n = 0 then 0 else ds.length
+  sign ++ body ++
+    (if alt then strBytes " (digits: " ++ printSpec 10 false nd ++ strBytes ", bits: " ++
+      printSpec 10 false (bitLen n) ++ [41] else [])
+
+def modeName : Mode → String
+  | .zero => "Zero" | .away => "Away" | .up => "Up" | .down => "Down"
+  | .halfEven => "HalfEven" | .halfAway => "HalfAway"
+
+/-- the `significand` field of the pretty `Debug` forms -/
+def debugSignifField (W B : Nat) (s : Int) : List Nat :=
+  if B = 2 then debugInt W false false s ++ strBytes " (" ++ printSpec 10 false (digitsI B s) ++ strBytes " bits)"
+  else if B = 10 then debugInt W true false s
+  else debugInt W false false s ++ strBytes " (" ++ printSpec 10 false (digitsI B s) ++ strBytes " digits)"
+
+/-- `Debug for Repr<B>` (finite values) -/
+def debugRepr (W B : Nat) (alt : Bool) (r : FRepr) : List Nat :=
+  if alt then
+    strBytes "Repr {\n    significand: " ++ debugSignifField W B r.signif ++
+      strBytes ",\n    exponent: " ++ printSpec 10 false B ++ strBytes " ^ " ++ printSpecInt 10 false r.exp ++
+      strBytes ",\n}"
+  else debugInt W false false r.signif ++ strBytes " * " ++ printSpec 10 false B ++ strBytes " ^ " ++
+    printSpecInt 10 false r.exp
+
+/-- `Debug for FBig<R, B>` (finite values) -/
+def debugFBig (W B : Nat) (m : Mode) (alt : Bool) (r : FRepr) (prec : Nat) : List Nat :=
+  if alt then
+    strBytes "FBig {\n    significand: " ++ debugSignifField W B r.signif ++
+      strBytes ",\n    exponent: " ++ printSpec 10 false B ++ strBytes " ^ " ++ printSpecInt 10 false r.exp ++
+      strBytes ",\n    precision: " ++ printSpec 10 false prec ++
+      strBytes ",\n    rounding: " ++ strBytes (modeName m) ++ strBytes ",\n}"
+  else debugRepr W B false r ++ strBytes " (prec: " ++ printSpec 10 false prec ++ [41]
 
 -- ---------------------------------------------------------------- specification of printing
 
